@@ -201,6 +201,14 @@ func genResponse(t *rapid.T, p *Pkg, info implInfo, docs []DocResponse) (reflect
 					ff.Set(reflect.Zero(ff.Type()))
 				}
 			}
+			// a header with a Go time layout can only carry what the layout can express
+			for name, h := range info.Doc.Headers {
+				if prim, _, ok := headerPrim(p.Doc, h); ok && prim.Layout() != "" {
+					if hf, ok := headerField(v, name); ok {
+						FitTimesToLayout(hf, prim.Layout())
+					}
+				}
+			}
 		}
 	}
 	return v, raw, g
@@ -236,7 +244,7 @@ func headerPrim(d *specgen.Doc, h *specgen.Header) (specgen.Prim, bool, bool) {
 			return specgen.Prim{}, false, false
 		}
 	}
-	p, ok := specgen.PrimOf(&specgen.Schema{Type: rs.Type, Format: rs.Format})
+	p, ok := specgen.PrimOf(&specgen.Schema{Type: rs.Type, Format: rs.Format, TimeFormat: rs.TimeFormat})
 	return p, isArr, ok
 }
 
